@@ -546,6 +546,16 @@ def run_case(case, ctx):
             if fa.shape != fb.shape or not np.allclose(fa, fb, rtol=1e-10, atol=1e-14):
                 bad("fully_functional", "face_areas", f"face areas {fa[:4]} vs fresh {fb[:4]}", f_site)
                 return fails
+        # latitude-longitude bounds of each face (when the fresh grid can compute them)
+        try:
+            bt = np.asarray(twin.bounds.values, float)
+        except Exception:  # noqa
+            bt = None
+        if bt is not None:
+            br = np.asarray(res.bounds.values, float)
+            if br.shape != bt.shape or not np.allclose(br, bt, rtol=0.0, atol=1e-9, equal_nan=True):
+                bad("fully_functional", "bounds", f"face bounds differ from a fresh grid's: {br[:2].tolist()} vs {bt[:2].tolist()}", f_site)
+                return fails
         # edge centres by node pair
         ea = S.ll2xyz_np(np.asarray(res.edge_lon.values, float), np.asarray(res.edge_lat.values, float))
         for e, (a, b) in enumerate(rp):
